@@ -103,6 +103,7 @@ def run():
     v0, _ = racecheck.judge([copy.deepcopy(r)], {})
     bad = copy.deepcopy(r)
     bad["final"] = {"a": 1}
+    bad["mid"] = {"a": 1}      # the pair is judged against the state right after it
     v1, _ = racecheck.judge([bad], {})
     print("Lin: sequential run %s ; lost update injected -> %s" % (v0[1]["clause"], v1[1]["clause"]))
     ok = ok and v0[1]["clause"] == "ok" and v1[1]["clause"] != "ok"
